@@ -742,6 +742,14 @@ def rule_dso_load_bias(ctx, R="C18/dso-load-bias"):
     adds = [(bi, o.call_args(bi)) for bi, t in b.calls(lambda c: (c.short or "").split("::")[-1] == "wrapping_add")]
     okdyn = any(any(q[0] == "field" and q[2] == "p_vaddr" for q in walk(a[0])) and any(q[0] == "call" and q[1].endswith("get_program_header_address") for q in walk(a[1])) for bi, a in adds)
     ctx.check(okdyn, R, "dynamic=vaddr+bias", b.where(adds[0][0]) if adds else b.where(0), "dyn_addr = p_vaddr(PT_DYNAMIC).wrapping_add(bias)", "the dynamic section's address is not p_vaddr + bias")
+    # ... with the FINAL bias: the headers are in no fixed order (only PT_LOADs are sorted among themselves), so the bias is known only
+    # when every header was looked at — the addition must not sit inside the loop that still adjusts the bias
+    adj_loops = {h for bi, how in ups for h, body in loops.items() if bi in body}
+    for bi, a in adds:
+        if any(q[0] == "field" and q[2] == "p_vaddr" for q in walk(a[0])) and any(q[0] == "call" and q[1].endswith("get_program_header_address") for q in walk(a[1])):
+            inside = [h for h in adj_loops if bi in loops[h]]
+            ctx.check(not inside, R, "bias-is-final", b.where(bi), "the bias is added after the program-header scan has finished adjusting it",
+                      "the bias is added inside the program-header scan: a PT_DYNAMIC listed before the PT_LOAD with p_offset == 0 gets the unadjusted page address (off by that segment's p_vaddr for a non-PIE image)")
 
 
 CPU_FIELDS = ("processor_architecture", "number_of_processors", "processor_level", "processor_revision", "cpu")
